@@ -11,6 +11,7 @@ import SqlLineage.IO.PathSec
 import SqlLineage.IO.Names
 import SqlLineage.IO.Split
 import SqlLineage.IO.Provider
+import SqlLineage.IO.Chain
 
 open Lean
 
@@ -38,7 +39,9 @@ def handlers : List (String × (Json → Except String Json)) := [
   ("splitscript", SqlLineage.IO.Split.handleScript),
   ("provhist", SqlLineage.IO.Provider.handleHist),
   ("provthreads", SqlLineage.IO.Provider.handleThreads),
-  ("provsched", SqlLineage.IO.Provider.handleSched)
+  ("provsched", SqlLineage.IO.Provider.handleSched),
+  ("chain", SqlLineage.IO.Chain.handleChain),
+  ("chainpaths", SqlLineage.IO.Chain.handleChainPaths)
 ]
 
 def handleLine (line : String) : String :=
